@@ -181,6 +181,7 @@ func (x *Exec) assumeAllocated(n *Node, st *State, t Term) {
 	switch types.Unalias(t.T).Underlying().(type) {
 	case *types.Struct:
 		x.assumeWF(n, t, 0)
+		x.assumeFieldsAllocated(n, t, cur, 0)
 	case *types.Pointer, *types.Map:
 		n.assume(mkAnd(app("<", t.S, cur), app(">=", t.S, "0")))
 	case *types.Slice:
@@ -222,6 +223,28 @@ func (x *Exec) assumeWF(n *Node, t Term, depth int) {
 					x.assumeWF(n, Term{S: app(f.acc, t.S), Sort: f.sort, T: f.typ}, depth+1)
 				}
 			}
+		}
+	}
+}
+
+// assumeFieldsAllocated: references held in the fields of a struct value were allocated before now.
+func (x *Exec) assumeFieldsAllocated(n *Node, t Term, alloc string, depth int) {
+	if t.T == nil || depth > 2 || isTimeTime(t.T) {
+		return
+	}
+	si := x.ss.structInfoOf(t.T)
+	if si == nil {
+		return
+	}
+	for _, f := range si.fields {
+		sel := app(f.acc, t.S)
+		switch types.Unalias(f.typ).Underlying().(type) {
+		case *types.Pointer, *types.Map:
+			n.assume(app("<", sel, alloc))
+		case *types.Slice:
+			n.assume(app("<", app("s.arr", sel), alloc))
+		case *types.Struct:
+			x.assumeFieldsAllocated(n, Term{S: sel, Sort: f.sort, T: f.typ}, alloc, depth+1)
 		}
 	}
 }
@@ -455,6 +478,7 @@ type Frame struct {
 	lastState *State
 	parent *Frame
 	siteIDs map[string]map[ssa.Instruction]int
+	derefDetail string
 }
 
 type closureInfo struct {
@@ -707,7 +731,9 @@ func (x *Exec) placeOf(fr *Frame, n *Node, st *State, v ssa.Value) *Place {
 	case *ssa.FieldAddr:
 		base := x.placeOf(fr, n, st, v.X)
 		if base == nil {
+			fr.derefDetail = fieldNameOf(v)
 			base = x.ptrPlace(fr, n, st, v.X)
+			fr.derefDetail = ""
 		}
 		p = x.fieldPlace(base, v.Field)
 	case *ssa.IndexAddr:
@@ -758,7 +784,7 @@ func (x *Exec) ptrPlace(fr *Frame, n *Node, st *State, v ssa.Value) *Place {
 func (x *Exec) ptrPlaceT(fr *Frame, n *Node, ref Term, pos token.Pos) *Place {
 	et := deref(ref.T)
 	if fr != nil {
-		x.safety(fr, n, app("not", app("=", ref.S, "0")), "nil-deref", pos)
+		x.safety(fr, n, app("not", app("=", ref.S, "0")), "nil-deref", pos, fr.derefDetail)
 	}
 	switch et.Underlying().(type) {
 	case *types.Struct:
@@ -787,7 +813,7 @@ func (x *Exec) fieldPlace(base *Place, field int) *Place {
 }
 
 // safety records an implicit-panic condition: an obligation in `safe` top-level functions, an assumption elsewhere.
-func (x *Exec) safety(fr *Frame, n *Node, cond string, kind string, pos token.Pos) {
+func (x *Exec) safety(fr *Frame, n *Node, cond string, kind string, pos token.Pos, detail ...string) {
 	if cond == "true" {
 		return
 	}
@@ -797,6 +823,11 @@ func (x *Exec) safety(fr *Frame, n *Node, cond string, kind string, pos token.Po
 		for _, k := range fr.contract.SafeKinds {
 			if k == kind {
 				wanted = true
+			}
+			for _, d := range detail {
+				if k == kind+":"+d {
+					wanted = true
+				}
 			}
 		}
 	}
